@@ -245,6 +245,54 @@ def value_oracle(pr):
     return None
 
 
+def nc_envs():
+    """environments in which multiplication does NOT commute: every variable a generator of a free
+    algebra (harness/oracles/ncpoly.py)"""
+    from ..oracles.ncpoly import NCPoly
+    g = {n: NCPoly.gen(n) for n in ("x", "y", "z", "w")}
+    yield {**g, "t": (5, 7), "f": (lambda a: a * 2 + 1)}
+    # a second one with sums as values (reordered factors of a product of sums)
+    yield {"x": g["x"] + 1, "y": g["y"] * g["x"], "z": g["z"] - g["x"], "w": g["w"],
+           "t": (5, 7), "f": (lambda a: a * 2 + 1)}
+
+
+def order_oracle(pr):
+    """"never reorder non-commuting operands": the tree and the plain computation agree in a value
+    domain where `*` does not commute (no verdict where the plain computation has no value there:
+    divisions by non-numbers, remainders, shifts, … raise TypeError)."""
+    from pymbolic.mapper.evaluator import EvaluationMapper
+    from ..oracles.ncpoly import NCPoly, NCTooBig
+    try:
+        tree = prog_build(pr)
+    except Exception:
+        return None
+    if not has_node(pr) or has_float_leaf(pr):
+        return None
+    for sub in pr[2:] if pr[0] in ("bin", "un") else []:
+        f = order_oracle(sub)
+        if f is not None:
+            return f
+    for env in nc_envs():
+        try:
+            want = prog_plain(pr, env)
+        except Exception:
+            continue
+        if not isinstance(want, NCPoly):
+            continue
+        try:
+            got = EvaluationMapper(env)(tree)
+            ok = bool(got == want)
+        except NCTooBig:
+            continue
+        except Exception as ex:
+            got, ok = ex, False
+        if not ok:
+            return Failure("reorders:" + classify(pr),
+                           f"tree {tree!r} evaluates to {got!r} over non-commuting x, y, z, w; the "
+                           f"plain computation gives {want!r}", pr)
+    return None
+
+
 class ProgStream(Stream):
     def request(self, pl):
         return f"(opprog {prog_to_req(pl)})"
@@ -253,7 +301,7 @@ class ProgStream(Stream):
         return build_sx(lambda: prog_build(pl))
 
     def oracle(self, pl):
-        return value_oracle(pl)
+        return value_oracle(pl) or order_oracle(pl)
 
     def nontrivial_key(self, pl, model, impl):
         return dumps(pl) if has_node(pl) else None
@@ -322,6 +370,45 @@ class RandomProgs(ProgStream):
             yield gen(rng.randint(1, 5))
 
 
+class NonCommutative(ProgStream):
+    """programs of + - * (and small powers) over products, sums and nested products of FOUR
+    different variables: exhaustive two-operator programs in both groupings, random deeper ones.
+    The order oracle decides them in the free algebra."""
+    name = "opprog-noncommutative"
+
+    @staticmethod
+    def pool():
+        w = p.Variable("w")
+        return [x, y, z, w, p.Product((x, y)), p.Product((z, w)), p.Product((y, p.Product((z, w)))),
+                p.Product((p.Product((x, y)), z)), p.Sum((x, y)), p.Sum((z, p.Product((w, x)))),
+                p.Power(x, 2), p.Quotient(y, 2), 2, -1, 1, 0]
+
+    def cases(self, rng, tier):
+        sx = [dumps(expr_to_sx(v)) for v in self.pool()]
+        ops = ["mul", "add", "sub"]
+        trip = list(itertools.product(range(len(sx)), repeat=3))
+        if tier == "quick":
+            trip = rng.sample(trip, 450)
+        for a, b, c in trip:
+            for o1, o2 in itertools.product(ops, ops):
+                if "mul" not in (o1, o2):
+                    continue
+                yield ["bin", o2, ["bin", o1, ["leaf", sx[a]], ["leaf", sx[b]]], ["leaf", sx[c]]]
+                yield ["bin", o1, ["leaf", sx[a]], ["bin", o2, ["leaf", sx[b]], ["leaf", sx[c]]]]
+
+        def gen(d):
+            if d == 0 or rng.random() < 0.2:
+                return ["leaf", rng.choice(sx)]
+            k = rng.random()
+            if k < 0.1:
+                return ["un", "neg", gen(d - 1)]
+            if k < 0.2:
+                return ["bin", "pow", gen(d - 1), ["leaf", rng.choice(["(Int 0)", "(Int 1)", "(Int 2)", "(Int 3)"])]]
+            return ["bin", rng.choice(["mul", "mul", "mul", "add", "sub"]), gen(d - 1), gen(d - 1)]
+        for _ in range(600 if tier == "quick" else 20000):
+            yield gen(rng.randint(2, 5))
+
+
 class Helpers(Stream):
     """truthiness of nodes, flattened_sum / flattened_product"""
     name = "helpers"
@@ -376,6 +463,30 @@ class Helpers(Stream):
                 got, ok = ex, False
             if not ok:
                 return Failure(pl["what"] + "-value", f"{tree!r} gives {got!r}, terms give {want!r}", pl)
+        # "does not change the order of the terms": the same over non-commuting values
+        from ..oracles.ncpoly import NCPoly, NCTooBig
+        if any("(Flt" in a for a in pl["args"]):
+            return None
+        for env in nc_envs():
+            try:
+                vals = [pyeval(a, env) for a in args]
+                want = 0 if pl["what"] == "flatsum" else 1
+                for v in vals:
+                    want = (want + v) if pl["what"] == "flatsum" else (want * v)
+            except Exception:
+                continue
+            if not isinstance(want, NCPoly):
+                continue
+            try:
+                got = EvaluationMapper(env)(tree)
+                ok = bool(got == want)
+            except NCTooBig:
+                continue
+            except Exception as ex:
+                got, ok = ex, False
+            if not ok:
+                return Failure(pl["what"] + "-reorders", f"{tree!r} gives {got!r} over non-commuting "
+                               f"x, y, z, w; the terms in order give {want!r}", pl)
         return None
 
 
@@ -419,6 +530,10 @@ def probes():
     res.append(("mod-by-one", EM({"x": half})(t) != half % 1, f"(x % 1) -> {t!r}; at x=1/2 plain 1/2"))
     t = 0 ** x
     res.append(("zero-pow", EM({"x": 0})(t) != 0 ** 0, f"(0 ** x) -> {t!r}; at x=0 plain 1"))
+    a, b, c = (p.Variable(n) for n in "abc")
+    t = p.flattened_product((x, p.Product((a, b)), c))
+    res.append(("flatprod-reorders", t != p.Product((x, a, b, c)),
+                f"flattened_product((x, a*b, c)) -> {t!r}: the spliced factors are moved behind c"))
     return res
 
 
@@ -445,7 +560,7 @@ PROP = Prop(
     lean_targets=["PV.Properties.C03", "PV.Properties.C03Syntax"],
     theorems=[],
     extractors=[extract, extract_syntax],
-    streams=[ExhaustiveOps(), RandomProgs(), Helpers(), OrderComparisons(),
+    streams=[ExhaustiveOps(), RandomProgs(), NonCommutative(), Helpers(), OrderComparisons(),
              ExhaustiveSyntax(), RandomSyntax()],
     probes=[probes, syntax_probes],
     trusted_base=[
